@@ -11,6 +11,7 @@ import (
 	"compress/zlib"
 	"fmt"
 	"io/ioutil"
+	"os"
 	"reflect"
 	"runtime"
 	"sort"
@@ -401,6 +402,13 @@ func verifRunSchedules(preempts int, stuckMsg string) {
 			s.tids[verifGID()] = i
 			s.mu.Unlock()
 			<-start
+			// a thread runs its first instruction only when the recorded order says it is its turn: between two
+			// turn-taking points exactly one thread runs, as in the symbolic exploration
+			s.mu.Lock()
+			for s.active && s.cursor < len(s.order) && s.order[s.cursor] != i {
+				s.cond.Wait()
+			}
+			s.mu.Unlock()
 			f()
 		}()
 	}
@@ -448,6 +456,9 @@ type verifSchedT struct {
 
 var verifSched verifSchedT
 
+// (no package-level initialiser here: the symbolic executor runs the package's initialisers)
+func verifSchedDebug() bool { return os.Getenv("VERIF_SCHED_DEBUG") != "" }
+
 func verifGID() int64 {
 	var buf [64]byte
 	n := runtime.Stack(buf[:], false)
@@ -476,6 +487,10 @@ func verifSchedAcquire(do func()) {
 		s.cond.Wait()
 	}
 	mine := s.active && s.cursor < len(s.order)
+	if mine && verifSchedDebug() {
+		_, file, line, _ := runtime.Caller(2)
+		fmt.Printf("SCHED %d@%s:%d cursor=%d\n", tid, file[strings.LastIndex(file, "/")+1:], line, s.cursor)
+	}
 	s.mu.Unlock()
 	do()
 	if mine {
